@@ -29,6 +29,16 @@ def run():
              f"heads anywhere, 0-5 build tags, 0-2 own matching commits, every commit pinning a component build by "
              f"any of its numbers, "
              f"pins monotone along every edge; both supply orders; all times within one day. "
+             f"(3) {b.notes.get('spread_cases')} further seeded two-repository histories with explicit commit "
+             f"dates spread over up to 30 days (dates grow along ancestry; gaps of minutes to 2.5 days between a "
+             f"commit and its parent, work on a component branch starting up to 6 days after the branch point): "
+             f"30 % one-branch components as in (2), 70 % components with 2-3 branches (release/x.y, master, any "
+             f"subset) forking from a shared trunk of 1-3 commits (built, never matching), each with a private "
+             f"part of 0-4 commits (chains, fork/join segments) carrying builds and matching commits, any branch "
+             f"holding the oldest report-related build; build numbers in date order, one release in all tags or "
+             f"one per branch; parent as in (2) with every commit dated after its parents and after the component "
+             f"build it pins (15 % of them up to one day before it: clock skew inside the window), parent lines "
+             f"following different component branches. "
              f"non-trivial = (1) >= 2 repositories with a dependency between supplied ones, "
              f"(2) the parent's builds pin >= 2 distinct component builds",
         exhaustive=False,
@@ -42,14 +52,24 @@ def run():
     return finish(PROP, 'exploration', _viol, pu, pe + b.errors, cov, passumed +
                   ["report-related component builds = the builds shown in the component's own report "
                    "(their correctness is C06's subject)",
-                   "the component has a single branch (with several component branches the statement's 'contains' "
-                   "is ambiguous between ancestry and per-branch listing); builds of a parent branch as defined in C06",
+                   "component branches: one branch, or several branches such that no commit reachable from two "
+                   "component branch heads matches the search text (every report-related component build and "
+                   "everything containing it is then private to one branch; when report-related builds are shared "
+                   "between component branches or one component branch merges another, the statement's 'contains' is "
+                   "ambiguous between ancestry and per-branch listing - not checked); builds of a parent branch as "
+                   "defined in C06",
                    "'never decreases' is read as: the pinned component commit of a child is the pinned commit of its "
                    "parent or a descendant of it, and the pinned number is not smaller (equals the numeric order on "
                    "linear component histories)",
                    "a component build = a build-tagged commit; all build numbers of one commit name that build",
                    "every parent commit pins a build-tagged component commit reachable from the component's head",
-                   "all commit times of both repositories within one day (inside both cut-off windows)",
+                   "'commit times within the cut-off windows' (ak/ghist.py: a component is ignored at parent commits "
+                   "not younger than its oldest report-related build minus 1 day; a branch whose head is 30 days older "
+                   "than a report-related build is dropped) is made precise as: no parent commit is a day or more "
+                   "older than any component commit contained in the build it pins (hence no parent commit whose pin "
+                   "contains a report-related component build is at or below the component's cut-off, whichever "
+                   "builds are report-related), and all commit times of the two repositories span less than 30 days; "
+                   "in the generated histories dates also grow along ancestry within a repository",
                    "one build tag per parent commit, distinct build numbers (included_at identifies parent builds by "
                    "branch and number)",
                    "bounded: <= 4 repositories for ordering; component <= 8 commits, parent <= 10 commits"], t0)
